@@ -7,10 +7,13 @@ struct request;
 static int h_udp_radsrv(struct request *rq);
 static ssize_t h_udp_recvfrom(int s, void *buf, size_t len, int flags, struct sockaddr *from, socklen_t *fromlen);
 #define radsrv(rq) h_udp_radsrv(rq)
+static ssize_t h_udp_sendto(int s, const void *buf, size_t len, int flags, const struct sockaddr *to, socklen_t tolen);
 #define recvfrom(s, b, l, f, a, al) h_udp_recvfrom((s), (b), (l), (f), (a), (al))
+#define sendto(s, b, l, f, a, al) h_udp_sendto((s), (b), (l), (f), (a), (al))
 #include "udp.c"
 #undef radsrv
 #undef recvfrom
+#undef sendto
 #include "hcommon.h"
 
 struct request *h_udp_last_rq;
@@ -38,3 +41,20 @@ static int h_udp_radsrv(struct request *rq) {
 }
 
 void *h_udpserverrd(void *arg) { return udpserverrd(arg); }
+
+/* the real udpserverwr as a harness-run writer (C02 hand-off): what it sends is recorded, not put on a socket */
+extern int h_client_index_by_addr(const struct sockaddr *sa);
+static __thread int h_udp_is_writer;
+static ssize_t h_udp_sendto(int s, const void *buf, size_t len, int flags, const struct sockaddr *to, socklen_t tolen) {
+    if (h_udp_is_writer) {
+        char name[16];
+        snprintf(name, sizeof(name), "%d", h_client_index_by_addr(to));
+        h_event("wout", name, buf, (int)len);
+        return (ssize_t)len;
+    }
+    return sendto(s, buf, len, flags, to, tolen);
+}
+void *h_udpserverwr(void *arg) {
+    h_udp_is_writer = 1;
+    return udpserverwr(arg);
+}
